@@ -96,7 +96,15 @@ impl VMessage {
     }
 }
 
-type Tap = Box<dyn FnMut(bool, &VMessage) + Send>;
+/// Tap callback: (receiver is host side, sending client id when the receiver is the host, message).
+type Tap = Box<dyn FnMut(bool, Option<u64>, &VMessage) + Send>;
+static FROM_CLIENT: Mutex<Option<u64>> = Mutex::new(None);
+
+pub(crate) fn tap_from_client(id: u64) {
+    if let Ok(mut g) = FROM_CLIENT.lock() {
+        *g = Some(id);
+    }
+}
 static TAP: Mutex<Option<Tap>> = Mutex::new(None);
 
 /// Install (or clear) the receive tap: called once per message a receiver handles,
@@ -108,7 +116,12 @@ pub fn set_tap(tap: Option<Tap>) {
 pub(crate) fn tap_received(is_server: bool, m: &Message) {
     if let Ok(mut g) = TAP.lock() {
         if let Some(f) = g.as_mut() {
-            f(is_server, &VMessage::from_message(m));
+            let from = if is_server {
+                FROM_CLIENT.lock().ok().and_then(|mut c| c.take())
+            } else {
+                None
+            };
+            f(is_server, from, &VMessage::from_message(m));
         }
     }
 }
